@@ -48,7 +48,8 @@ CheckEvent(e) ==
         skip == SkipSet(gsteps, 1, NONE)
         ref == Tr!Ref("dfs", t, t.root, skip)
         ns == NextSteps(gsteps)
-        total == \A i \in Occ(t) : ~t.nodes[i].leaf => t.nodes[i].ch[1] # NONE /\ t.nodes[i].ch[2] # NONE
+        \* total: every label a decision can produce (2^rows of them) has a child
+        total == \A i \in Occ(t) : ~t.nodes[i].leaf => \A j \in 1..Len(t.nodes[i].ch) : j <= Pow2(Len(t.nodes[i].m)) => t.nodes[i].ch[j] # NONE
         shape == IF total THEN "total" ELSE "partial"
         terms == {s \in SeqToSet(ns) : t.nodes[s.item.idx].leaf}
     IN
